@@ -72,6 +72,20 @@ class CoopLock:
 _LOCK_TYPES = (type(threading.Lock()), type(threading.RLock()))
 
 
+def library_namespaces(prefix):
+    """(namespace dict, setter) pairs for every loaded module of a package and every class defined in
+    them: the places where a library can keep a lock (module global or class attribute)."""
+    out = []
+    for name, mod in list(sys.modules.items()):
+        if mod is None or not (name == prefix or name.startswith(prefix + '.')):
+            continue
+        out.append((vars(mod), (lambda m: lambda k, v: setattr(m, k, v))(mod)))
+        for obj in list(vars(mod).values()):
+            if isinstance(obj, type) and getattr(obj, '__module__', '') == name:
+                out.append((dict(vars(obj)), (lambda c: lambda k, v: setattr(c, k, v))(obj)))
+    return out
+
+
 def replace_locks(namespaces):
     """Replace every lock instance found in the given namespaces (module dicts / class dicts)
     by a cooperative wrapper; returns the wrappers."""
@@ -166,7 +180,7 @@ class Scheduler:
 
         def glob(frame, event, arg):
             code = frame.f_code
-            if not code.co_filename.endswith(suffix):
+            if not (suffix(code.co_filename) if callable(suffix) else code.co_filename.endswith(suffix)):
                 return None
             if use_opcodes and opcode_in(code):
                 frame.f_trace = local
